@@ -203,17 +203,29 @@ def lt0(e):
     return ctx().branch(e < 0)
 
 
+class DT(str):
+    """dtype of a symbolic array: 'float' | 'int', with the attributes of a numpy dtype that code inspects"""
+
+    @property
+    def kind(self):
+        return 'i' if self == 'int' else 'f'
+
+    @property
+    def name(self):
+        return 'int64' if self == 'int' else 'float64'
+
+
 class SArr:
     """symbolic array: shape (ints or z3 Int terms), fn(index tuple) -> element (Z / number)."""
 
-    dtype = 'float'          # 'float' | 'int': assignment into an int array truncates (numpy's unsafe cast on __setitem__)
+    dtype = DT('float')      # 'float' | 'int': assignment into an int array truncates (numpy's unsafe cast on __setitem__)
 
     def __init__(self, shape, fn, name='arr', dtype=None):
         self.shape = tuple(ilen(s) for s in shape)
         self.fn = fn
         self.name = name
         if dtype is not None:
-            self.dtype = dtype
+            self.dtype = DT(dtype)
 
     def __setitem__(self, key, val):
         """a[lo:hi, ...] = val along leading axes (step 1), a[k] = val: the array becomes the piecewise function"""
@@ -296,6 +308,12 @@ class SArr:
 
     def __bool__(self):
         raise PathAbort('truth value of a symbolic array')
+
+    def __iter__(self):
+        n = self.shape[0]
+        if not isinstance(n, int):
+            raise PathAbort('iteration over an array of symbolic length (needs a loop contract or np.arange)')
+        return iter([self[k] for k in range(n)])
 
     def at(self, idx):
         idx = tuple(ilen(i) for i in idx)
@@ -425,7 +443,7 @@ class SArr:
     def __rmul__(self, o): return self._ew(o, lambda a, b: a * b, True)
     def __truediv__(self, o):
         r = self._ew(o, lambda a, b: a / b)
-        r.dtype = 'float'
+        r.dtype = DT('float')
         return r
     def __neg__(self): return SArr(self.shape, lambda idx: -wrap(self.fn(idx)), self.name, dtype=self.dtype)
 
@@ -524,6 +542,9 @@ class ShimNPz:
             return range(ilen(lo), ilen(hi))
         return GenRange(lo, hi)
 
+    def asarray(self, x, *a, **k):
+        return self.array(x, *a, **k)
+
     def array(self, x, *a, **k):
         c = ctx()
         g = c.gen_pending
@@ -547,7 +568,7 @@ class ShimNPz:
 
     def _alloc(self, shape, fill, dtype):
         import numpy
-        dt = 'int' if (dtype in ('int', int) or (dtype is not None and dtype not in ('float', float) and numpy.issubdtype(numpy.dtype(dtype), numpy.integer))) else 'float'
+        dt = 'int' if (dtype in ('int', int) or (dtype is not None and dtype not in ('float', float) and not isinstance(dtype, DT) and numpy.issubdtype(numpy.dtype(dtype), numpy.integer))) else 'float'
         if fill is None:
             G = z3.Function(f'uninitialised!{next(ctx().fresh)}', *([z3.IntSort()] * len(shape) + [z3.RealSort()]))
             fn = lambda idx: Z(G(*[to_z3(i) for i in idx]))
@@ -688,17 +709,30 @@ def explore(fn, setup=None, max_paths=256):
 
 def prove(pc, goal, timeout_ms=20000):
     """-> ('valid', None) | ('invalid', model) | ('unknown', reason); z3 then cvc5-free fallback"""
-    s = z3.Solver()
-    s.set('timeout', timeout_ms)
-    s.add(*pc)
-    s.add(z3.Not(goal))
     t0 = time.time()
-    r = s.check()
-    if r == z3.unsat:
-        return 'valid', None, time.time() - t0
-    if r == z3.sat:
-        return 'invalid', s.model(), time.time() - t0
-    return 'unknown', s.reason_unknown(), time.time() - t0
+    reason = None
+    # a query that normally takes a fraction of a second occasionally runs into the time limit (solver heuristics depend on
+    # incidental state); an `unknown` is therefore retried with other random seeds before it is reported -- it never becomes
+    # a verdict either way
+    for attempt, seed in enumerate((None, 7, 1234)):
+        s = z3.Solver()
+        s.set('timeout', timeout_ms if attempt == 0 else min(2 * timeout_ms, 60000))
+        if seed is not None:
+            s.set('random_seed', seed)
+            z3.set_param('smt.random_seed', seed)
+        s.add(*pc)
+        s.add(z3.Not(goal))
+        r = s.check()
+        if seed is not None:
+            z3.set_param('smt.random_seed', 0)
+        if r == z3.unsat:
+            return 'valid', None, time.time() - t0
+        if r == z3.sat:
+            return 'invalid', s.model(), time.time() - t0
+        reason = s.reason_unknown()
+        if time.time() - t0 > 150:
+            break
+    return 'unknown', reason, time.time() - t0
 
 
 # ===========================================================================
@@ -838,9 +872,39 @@ def run_block_status(stmts, glb, loc, filename='<extracted>'):
 def raised_in_code_under_test(exc, roots=('/repo/',)):
     """True if the innermost frame of the exception lies in the code under test: then it is the code that raised.
     Otherwise a library or the symbolic shim choked on a symbolic object -- a limit of the tool, never a verdict."""
+    if any(mk in str(exc) for mk in TOOL_LIMIT_MARKERS):
+        return False          # numpy's C code choking on a symbolic object has no Python frame of its own
     tb = exc.__traceback__
     last = None
     while tb is not None:
         last = tb.tb_frame.f_code.co_filename
         tb = tb.tb_next
     return bool(last) and any(last.startswith(r) for r in roots)
+
+
+def lift_array(a, name='const'):
+    """a concrete numpy array that lives at module level of the code under test -> SArr, so that the code may index it with
+    symbolic bounds (numpy itself cannot).  Affine 1-D integer tables (np.arange) keep a closed form; other small arrays
+    become an if-chain; large irregular ones are outside the model."""
+    import numpy
+    a = numpy.asarray(a)
+    if a.ndim == 1 and a.size >= 2 and numpy.issubdtype(a.dtype, numpy.integer) and numpy.array_equal(a, a[0] + (a[1] - a[0]) * numpy.arange(a.size)):
+        a0, st = int(a[0]), int(a[1] - a[0])
+        return SArr((int(a.size),), lambda idx: Z(z3.IntVal(a0) + z3.IntVal(st) * to_z3(idx[0])), name, dtype='int')
+    if a.size <= 64:
+        flat = [x.item() for x in a.ravel()]
+        shape = tuple(int(n) for n in a.shape)
+
+        def fn(idx):
+            lin = z3.IntVal(0)
+            for i_, n_ in zip(idx, shape):
+                lin = lin * n_ + to_z3(i_)
+            e = to_z3(flat[-1], real=True)
+            for j in range(len(flat) - 2, -1, -1):
+                e = z3.If(lin == j, to_z3(flat[j], real=True), e)
+            return Z(e)
+        return SArr(shape, fn, name, dtype='int' if numpy.issubdtype(a.dtype, numpy.integer) else 'float')
+    raise PathAbort(f'module-level array {name} of {a.size} irregular entries is outside the model')
+
+
+TOOL_LIMIT_MARKERS = ("'Z' object", "'SArr' object", 'SArr', '0-dimensional', 'only integers, slices', 'object arrays are not supported', 'symbolic')
